@@ -34,9 +34,26 @@ def parse_rst_table(text):
     return rows, msgs
 
 
-def check_table_readback(t, label):
-    '''the rendered table is valid rst and its cells read back as the formatted inputs, highlighted exactly where asked'''
+def _fmt(raw):
     import numpy as np
+    return ('{:11.6g}'.format(raw) if isinstance(raw, (float, np.floating)) else str(raw)).strip()
+
+
+def expected_rows(t):
+    '''the rows a table template asks for: cell texts and highlight flags, row i = element i (logical, C order) of every column'''
+    import numpy as np
+    n = int(np.size(t.columns[0]))
+    cols = [np.ravel(np.asarray(c), order='C') for c in t.columns]
+    hls = [np.ravel(np.asarray(h), order='C') for h in t.highlights]
+    if any(c.size != n for c in cols) or any(h.size != n for h in hls):
+        return None, f'columns of {[c.size for c in cols]} cells and highlight columns of {[h.size for h in hls]} entries'
+    return [tuple((_fmt(c[i]), bool(h[i])) for c, h in zip(cols, hls)) for i in range(n)], None
+
+
+def check_table_readback(t, label, ordered=False):
+    '''the rendered table is valid rst; its rows are the rows asked for (cell text of the formatted input, highlighted exactly where asked).  Rows are compared as
+    a multiset unless `ordered`: the order in which an N-d column is unrolled is not part of the property, the pairing of the cells of a row is'''
+    import collections
     from valjean.javert.rst import RstTable
     probs = []
     try:
@@ -46,29 +63,38 @@ def check_table_readback(t, label):
     rows, msgs = parse_rst_table(text)
     if msgs:
         probs.append(f'{label}: docutils reports {msgs[:2]}')
+    want, err = expected_rows(t)
+    if want is None:
+        return probs + [f'{label}: the template is not rectangular: {err}']
+    body = [tuple((c.strip(), h) for c, h in r) for r in (rows[1:] if rows else [])]
     ncols = len(t.columns)
-    nrows = int(np.size(t.columns[0]))
-    body = rows[1:] if rows else []
-    if len(body) != nrows or any(len(r) != ncols for r in body):
-        probs.append(f'{label}: the rendered table has {len(body)} rows of {[len(r) for r in body][:3]} cells, expected {nrows} x {ncols}')
+    if len(body) != len(want) or any(len(r) != ncols for r in body):
+        probs.append(f'{label}: the rendered table has {len(body)} rows of {[len(r) for r in body][:3]} cells, expected {len(want)} x {ncols}')
         return probs
-    want_rows = list(RstTable.format_columns(t.columns, t.highlights, '{:11.6g}'))
-    for i in range(nrows):
-        for j in range(ncols):
-            col = np.ravel(t.columns[j])
-            hl = bool(np.ravel(t.highlights[j])[i]) if np.size(t.highlights[j]) == nrows else None
-            cell, is_hl = body[i][j]
-            raw = col[i]
-            want = ('{:11.6g}'.format(raw) if isinstance(raw, (float, np.floating)) else str(raw)).strip()
-            if cell.strip() != want:
-                probs.append(f'{label}: cell ({i}, {j}) reads {cell!r}, the input formats as {want!r}')
-            if hl is not None and is_hl != hl:
-                probs.append(f'{label}: cell ({i}, {j}) highlighted = {is_hl}, asked {hl}')
-            if hl is None:
-                probs.append(f'{label}: highlight column {j} has {np.size(t.highlights[j])} entries for {nrows} rows')
-        if len(probs) > 4:
-            break
+    if ordered:
+        for i, (g, w) in enumerate(zip(body, want)):
+            if g != w:
+                probs.append(f'{label}: row {i} reads {g}, asked {w}')
+                break
+    else:
+        cg, cw = collections.Counter(body), collections.Counter(want)
+        if cg != cw:
+            extra = list((cg - cw).elements())[:2]
+            missing = list((cw - cg).elements())[:2]
+            probs.append(f'{label}: rendered rows {extra} were not asked for; rows asked for and not rendered: {missing} (cells of different rows paired, or a highlight on the wrong row)')
     return probs
+
+
+def verdict_rows_check(t, label, verdict_col=-1):
+    '''in a detailed comparison table the highlighted rows are exactly those whose verdict cell reads False'''
+    from valjean.javert.rst import RstTable
+    rows, _ = parse_rst_table(str(RstTable(t)))
+    probs = []
+    for i, r in enumerate(rows[1:] if rows else []):
+        txt, hl = r[verdict_col]
+        if txt.strip() in ('True', 'False') and hl != (txt.strip() == 'False'):
+            probs.append(f'{label}: row {i} {[c for c, _ in r]} has verdict {txt.strip()} and highlight {hl}')
+    return probs[:2]
 
 
 def sweep(tier, seed):
@@ -140,11 +166,75 @@ def sweep(tier, seed):
                 fails.append({'input': {'table_rows': size, 'highlights': list(map(bool, hl_pattern)), 'join': True}, 'observed': probs[:3], 'expected': 'joined tables stay aligned'})
         if len(fails) >= 10:
             break
+    n2, fails2 = shapes_sweep(tier)
+    n += n2
+    fails.extend(fails2)
     return {'name': 'failure-marks-native', 'evaluations': n, 'distinct': n, 'failures': fails[:10], 'exhaustive': False, 'known_seen_inputs': known_seen[:3],
             'bound': 'every result kind with a built-in representation (equal, approx, student x2, bonferroni, holm over 4 (thorough: 6) failing-bin patterns + a one-sided NaN; '
                      'metadata; failed; task / test / by-label statistics) x {TableRepresenter, FullTableRepresenter} x 5 non-silent verbosities: mark <=> failure, docutils read-back '
-                     'of every table, detailed rows; 2-column tables of 3-4 rows with every highlight pattern: 4 slices and one join',
+                     'of every table, detailed rows; 2-column tables of 3-4 rows with every highlight pattern: 4 slices and one join; '
+                     '2 x 3 datasets (float, and integers beyond 10^6) in C and Fortran memory order, 4 failing-bin patterns: equal / approx-equal / Student detailed tables rendered, '
+                     'copied, sliced and joined: rows read back with the cells of one bin together and the highlight on the failing bins',
             'samples': [{'result': 'stats_tasks', 'pattern': 'FAILED/SKIPPED', 'representer': 'TableRepresenter', 'verbosity': 'DEFAULT'}]}
+
+
+def shapes_sweep(tier):
+    '''2-d datasets in C and Fortran memory order, float and large-integer values: detailed tables, then copy / slice / join'''
+    import numpy as np
+    from collections import OrderedDict
+    from valjean.eponine.dataset import Dataset
+    from valjean.gavroche.test import TestEqual, TestApproxEqual
+    from valjean.gavroche.stat_tests.student import TestStudent
+    from valjean.javert.representation import FullTableRepresenter, TableRepresenter, Representation
+    from valjean.javert.verbosity import Verbosity
+    from valjean.javert.templates import TableTemplate, join
+    fails, n = [], 0
+    pats = [((1, 0),), ((0, 2), (1, 0)), (), ((0, 0), (0, 1), (0, 2), (1, 0), (1, 1), (1, 2))]
+    for dtype in ('float', 'int'):
+        for order in ('C', 'F'):
+            for pat in pats:
+                base = (np.arange(6).reshape(2, 3) + 1) * (1.5 if dtype == 'float' else 1000001)
+                base = base.astype(float if dtype == 'float' else np.int64)
+                oth = base.copy()
+                for ij in pat:
+                    oth[ij] += 3
+                a, b = (np.asfortranarray(base), np.asfortranarray(oth)) if order == 'F' else (base, oth)
+                err = np.full(a.shape, 0.01, order=order)
+                bins = OrderedDict([('x', np.arange(3.)), ('y', np.arange(4.))])
+                ref, other = Dataset(a, err, bins=bins, name='ref'), Dataset(b, err.copy(order=order), bins=bins, name='oth')
+                kinds = [('equal', TestEqual)] + ([('approx', TestApproxEqual), ('student', TestStudent)] if dtype == 'float' else [])
+                for kind, cls in kinds:
+                    res = cls(ref, other, name=f'{kind}-2d').evaluate()
+                    for rep in (TableRepresenter, FullTableRepresenter):
+                        for v in (Verbosity.DEFAULT, Verbosity.INTERMEDIATE, Verbosity.FULL_DETAILS):
+                            n += 1
+                            inp = {'result': kind, 'shape': [2, 3], 'dtype': dtype, 'memory_order': order, 'failing_bins': [list(x) for x in pat],
+                                   'representer': rep.__name__, 'verbosity': v.name}
+                            try:
+                                ts = Representation(rep(), verbosity=v)(res)
+                            except Exception as e:      # noqa
+                                fails.append({'input': inp, 'observed': f'representation raised {e!r}', 'expected': 'templates'})
+                                continue
+                            if mark(ts) != (not bool(res)):
+                                fails.append({'input': inp, 'observed': f'mark = {mark(ts)} but the result is {bool(res)}', 'expected': 'a mark exactly for a false result'})
+                            for k, t in enumerate(ts or []):
+                                if not isinstance(t, TableTemplate):
+                                    continue
+                                nrows = int(np.size(t.columns[0]))
+                                variants = [('rendered', t)]
+                                try:
+                                    variants.append(('copied', t.copy()))
+                                    if nrows >= 2 and all(np.ndim(c) == 1 for c in t.columns):
+                                        variants.append(('sliced', t[slice(1, None)]))
+                                    variants.append(('joined', join(t, t.copy())))
+                                except Exception as e:      # noqa
+                                    fails.append({'input': inp, 'observed': f'copy / slice / join raised {e!r}', 'expected': 'a table'})
+                                for what, tv in variants:
+                                    probs = check_table_readback(tv, f'table {k} {what}') + (verdict_rows_check(tv, f'table {k} {what}') if kind in ('equal', 'approx') else [])
+                                    if probs:
+                                        fails.append({'input': dict(inp, table=what), 'observed': probs[:3],
+                                                      'expected': 'rows read back as asked; highlighted rows are those whose verdict reads False'})
+    return n, fails
 
 
 def detail_check(kind, res, ts, v):
